@@ -25,6 +25,8 @@ func init() {
 				Doc: "The pooled reader is released exactly once and not before the entity was read (C13.a): a reader released by a helper is handed to the next request while this one still decodes from it."},
 			{ID: "C16.e", Template: "T-OWN", Required: true, Run: ruleNoCompressorCopy,
 				Doc: "Decompressors handed out by the providers are distinct objects, never shallow copies of one reader (same obligations as C13.f): otherwise a gzip body is decoded with a flate state another request is using."},
+			{ID: "C16.h", Template: "T-SIBLING", Required: true, Run: ruleCodecSymmetry,
+				Doc: "A coding name stands for one format in both directions: under Content-Encoding E the request body is decoded, on every path, by the codec family that the compressing writer installs for responses declared E (gzip/gzip, deflate/zlib). A decoder guessed from the first byte of the body rejects valid bodies."},
 			{ID: "C16.g", Template: "T-FRESH", Required: true, Run: rulePooledBytesClean,
 				Doc: "'Never affects how any later request body is decoded': a byte container (bytes.Buffer, []byte, bufio) that goes through a sync.Pool is emptied before every Put or after every Get. A Put on an error path that skips the Reset leaves the bytes of a broken request in front of the next body."},
 			{ID: "C16.f", Template: "T-PROV", Required: true,
